@@ -1674,3 +1674,48 @@ def run_cursorpair(prog, ctx=None):
             res.ob("%s:%s.base keeps up with %s.used" % (f.qn, name, name), bad is None, f, (bad.get("l") if bad else f.line) or f.line,
                    "" if bad is None else "%s.used was reduced on a path to `%s` without moving %s.base: the read starts at bytes that were consumed already" % (name, norm(show(bad, f))[:60], name))
     return res
+
+
+def run_snprintffit(prog, ctx=None):
+    """SNPRINTFFIT: the result r of (v)snprintf(buf, n, ..) says "fits" only when r < n (r == n means the last character was
+    cut off for the terminator): a test that accepts r <= n, or rejects only r > n, keeps a truncated text as complete"""
+    res = Result("SNPRINTFFIT")
+    files = set(ctx.get("files", [])) if ctx else None
+    for f in funcs_of(prog, files):
+        sites = []        # (result var id, size text, call)
+        for b, i, n in f.walk_all():
+            if n.get("k") == "bin" and n.get("op") == "=":
+                l = strip(n["a"], lvalue_to_rvalue=False)
+                r = strip(n["b"], all_casts=True)
+                if l.get("k") == "ref" and "id" in l["d"] and r.get("k") == "call" and (callee_name(r) or "").split("::")[-1] in ("snprintf", "vsnprintf") and len(r.get("args", [])) >= 2:
+                    sites.append((l["d"]["id"], l["d"]["n"], norm(show(strip(r["args"][1], all_casts=True), f)), r))
+        if not sites:
+            continue
+        for vid, vn, ntext, call in sites:
+            verdicts = []
+            for b, i, n in f.walk_all():
+                if n.get("k") == "bin" and n.get("op") in ("<", "<=", ">", ">="):
+                    a = strip(n["a"], all_casts=True)
+                    c = strip(n["b"], all_casts=True)
+                    op = n["op"]
+                    if c.get("k") == "ref" and c["d"].get("id") == vid and norm(show(a, f)) == ntext:
+                        a, c = c, a
+                        op = {"<": ">", "<=": ">=", ">": "<", ">=": "<="}[op]
+                    if a.get("k") == "ref" and a["d"].get("id") == vid and norm(show(c, f)) == ntext:
+                        verdicts.append((op, n))
+            for op, n in verdicts:
+                ok = op in ("<", ">=")
+                if not ok and op == ">":
+                    # clamping  if (r > n) r = n;  keeps the terminated buffer: same text as for r == n
+                    for bid, blk in f.blocks.items():
+                        if blk.term and blk.term.get("cond") is not None and any(x is n for x in walk(blk.term["cond"])) and blk.succ and blk.succ[0] is not None:
+                            for el in f.blocks[blk.succ[0]].el:
+                                for y in walk_own(el):
+                                    if y.get("k") == "bin" and y.get("op") == "=":
+                                        t = strip(y["a"], lvalue_to_rvalue=False)
+                                        if t.get("k") == "ref" and t["d"].get("id") == vid:
+                                            ok = True
+                res.ob("%s:%s %s %s" % (f.qn, vn, op, ntext), ok, f, n.get("l", f.line),
+                       "" if ok else "`%s` compares the result of %s(.., %s, ..) with its size using %s: a result equal to the size is a truncated text, it fits only below the size" % (
+                           norm(show(n, f)), callee_name(call), ntext, op))
+    return res
